@@ -209,7 +209,8 @@ type SUT struct {
 	tr      *Tracer
 	addr    string
 	runErr  chan error
-	closed  sync.Map // connID -> count of OnClose calls
+	runDone chan struct{} // closed when Run has returned
+	closed  sync.Map      // connID -> count of OnClose calls
 	onClose func(int)
 }
 
@@ -265,7 +266,7 @@ func scenarioLogger() hclog.Logger {
 
 // startServer starts a real gldap.Server with the tracer installed. opts are server options.
 func startServer(mux *gldap.Mux, tlsc *tls.Config, onClose func(int), extra ...gldap.Option) (*SUT, error) {
-	s := &SUT{tr: NewTracer(), runErr: make(chan error, 1), onClose: onClose}
+	s := &SUT{tr: NewTracer(), runErr: make(chan error, 1), runDone: make(chan struct{}), onClose: onClose}
 	curTracer.Store(s.tr)
 	opts := []gldap.Option{gldap.WithLogger(scenarioLogger()), gldap.WithOnClose(func(id int) {
 		v, _ := s.closed.LoadOrStore(id, new(int32))
@@ -291,7 +292,9 @@ func startServer(mux *gldap.Mux, tlsc *tls.Config, onClose func(int), extra ...g
 		if tlsc != nil {
 			ropts = append(ropts, gldap.WithTLSConfig(tlsc))
 		}
-		s.runErr <- srv.Run(s.addr, ropts...)
+		err := srv.Run(s.addr, ropts...)
+		close(s.runDone)
+		s.runErr <- err
 	}()
 	deadline := time.Now().Add(5 * time.Second)
 	for !srv.Ready() {
@@ -333,6 +336,11 @@ func (s *SUT) finish() {
 		time.Sleep(time.Millisecond)
 	}
 	s.tr.ReleaseAll()
+	// ... and until Run itself has returned (Stop does not wait for it): its last events belong to this trace
+	select {
+	case <-s.runDone:
+	case <-time.After(3 * time.Second):
+	}
 }
 
 // ---- a raw LDAP client ---------------------------------------------------------------------------
